@@ -138,6 +138,8 @@ impl Mul<Scalar> for Challenge {
 #[derive(Debug)]
 pub struct ChallengeBuilder {
     hasher: Sha3_256,
+    #[cfg(feature = "verif-hooks")]
+    transcript: Vec<u8>,
 }
 
 impl Default for ChallengeBuilder {
@@ -151,6 +153,8 @@ impl ChallengeBuilder {
     pub fn new() -> Self {
         Self {
             hasher: Sha3_256::new(),
+            #[cfg(feature = "verif-hooks")]
+            transcript: Vec::new(),
         }
     }
 
@@ -167,6 +171,8 @@ impl ChallengeBuilder {
 
     /// Incorporate arbitrary bytes into the challenge.
     pub fn consume_bytes(&mut self, bytes: impl AsRef<[u8]>) {
+        #[cfg(feature = "verif-hooks")]
+        self.transcript.extend_from_slice(bytes.as_ref());
         self.hasher.update(bytes);
     }
 
@@ -186,6 +192,36 @@ impl ChallengeBuilder {
             u64::from_le_bytes(<[u8; 8]>::try_from(&digested[16..24]).unwrap()),
             u64::from_le_bytes(<[u8; 8]>::try_from(&digested[24..32]).unwrap()),
         ]);
+        #[cfg(feature = "verif-hooks")]
+        verif_hooks::record(self.transcript, scalar);
         Challenge(scalar)
+    }
+}
+
+/// Verification hooks (only with the `verif-hooks` feature): a thread-local log of every
+/// challenge derived on this thread, as (bytes consumed, challenge scalar).
+#[cfg(feature = "verif-hooks")]
+pub mod verif_hooks {
+    use crate::common::Scalar;
+    use std::cell::RefCell;
+
+    thread_local! {
+        static LOG: RefCell<Vec<(Vec<u8>, Scalar)>> = RefCell::new(Vec::new());
+    }
+
+    pub(super) fn record(transcript: Vec<u8>, challenge: Scalar) {
+        LOG.with(|log| {
+            let mut log = log.borrow_mut();
+            // Bounded so that long-running harnesses that never drain do not grow without limit.
+            if log.len() >= 4096 {
+                log.clear();
+            }
+            log.push((transcript, challenge));
+        });
+    }
+
+    /// Return and clear the challenges derived on this thread since the last call.
+    pub fn drain() -> Vec<(Vec<u8>, Scalar)> {
+        LOG.with(|log| std::mem::take(&mut *log.borrow_mut()))
     }
 }
